@@ -38,8 +38,8 @@ DOMAIN = {
 
 class D:
     """Source of choices.  Hypothesis' integer draws are heavily biased towards boundary values (a 2 % feature
-    came out at 15 %), so 85 % of the cases take all their choices from a ``random.Random`` seeded by a
-    single Hypothesis draw (honest probabilities); 15 % use Hypothesis draws directly (edge-heavy,
+    came out at 15 %), so 90 % of the cases take all their choices from a ``random.Random`` seeded by a
+    single Hypothesis draw (honest probabilities); 10 % use Hypothesis draws directly (edge-heavy,
     shrinkable)."""
 
     def __init__(self, draw):
@@ -48,7 +48,7 @@ class D:
         self.draw = draw
         self.rng = random.Random(draw(st.integers(0, 2**32 - 1)))
         self.clean = self.rng.random() < 0.35  # avoid every feature that triggers a recorded defect
-        if self.rng.random() < 0.15:
+        if self.rng.random() < 0.1:
             self.rng = None
 
     def int(self, a, b):
@@ -57,6 +57,8 @@ class D:
         return self.draw(st.integers(a, b))
 
     def p(self, prob):
+        if self.rng is None and prob < 0.01:
+            return False  # Hypothesis' bias towards 0 would turn a rare feature into a common one
         return self.int(0, 999) < int(prob * 1000)
 
     def choice(self, seq):
@@ -566,6 +568,17 @@ def build_case(draw, backend):
                 # attribute names come from disjoint pools
                 f = gen_field(d, backend, attr, series_case=series_case, used_names=used_names, override_mode=mode,
                               allow_index=False, inherited_kind=S.dt_table(backend)[inherited[attr]["ann"]]["kind"])
+                old_name, was_regex = inherited[attr]["name"], inherited[attr]["field"].get("regex")
+                if S.public(attr, f["field"]) != old_name and not was_regex and not d.p(0.15):
+                    # mostly keep the public name: inherited checks / parsers refer to it by name
+                    if f["field"] is None and old_name != attr:
+                        f["field"] = {}
+                    if f["field"] is not None:
+                        f["field"].pop("regex", None)
+                        if old_name == attr:
+                            f["field"].pop("alias", None)
+                        else:
+                            f["field"]["alias"] = old_name
                 if mode == "field":
                     f["field"].pop("dtype_kwargs", None)
                     if f["field"].get("regex"):
